@@ -969,9 +969,18 @@ def shared_initial_state(ctx, rule):
     sites = aggregates(ctx.facts, R["state_ty"], R["live"])
     ctor_sites = [(b, i, st) for b, i, st in sites if " as " not in b["name"] and "poll_next" not in b["name"]]
     n = 0
+    from .common import helper_inline as _hi
+    fns = []
     for b, i, st in aggregates(ctx.facts, R["shared"]):
-        from .common import helper_inline as _hi
-        outs = ctx.px(b["name"], inline=_hi(ctx, own=(R["shared"], R["state_ty"])), key="helpers")
+        if b["name"] not in fns:
+            fns.append(b["name"])
+    # a constructor that only *returns* the object (`impl Default`, a `new()` helper): the allocation is in its callers
+    for fn0 in list(fns):
+        for n2, b2 in ctx.facts.bodies.items():
+            if n2 not in fns and any(t_["callee"].get("res_path") == fn0 for _, t_ in ctx.facts.calls(b2)):
+                fns.append(n2)
+    for fname in fns:
+        outs = ctx.px(fname, inline=_hi(ctx, own=(R["shared"], R["state_ty"])), key="helpers")
         for o in outs:
             if o.kind != "return":
                 continue
